@@ -191,8 +191,16 @@ class IRGen:
                 t = self.tensor(name if self.maybe(0.5) else None)
                 v = ir.Value(name=name, const_value=t, doc_string=self.doc(), metadata_props=self.mprops())
                 if self.maybe(0.7):
-                    v.type = ir.TensorType(t.dtype)
-                    v.shape = ir.Shape(list(t.shape)) if self.maybe(0.8) else None
+                    den = "TENSOR" if self.maybe(0.25) else None
+                    v.type = ir.TensorType(t.dtype, denotation=den)
+                    if self.maybe(0.8):
+                        dims = list(t.shape)
+                        dd = [self.rng.choice(DENOTS) for _ in dims] if (dims and self.maybe(0.3)) else None
+                        v.shape = ir.Shape(dims, denotations=dd)
+                        if dd and any(dd):
+                            self.features.add("initializer_dim_denotation")
+                    if den:
+                        self.features.add("initializer_type_denotation")
                 inits.append(v)
             if inits and self.maybe(0.25):
                 inputs.append(inits[0])  # an initializer that is also a graph input
@@ -340,3 +348,53 @@ def uniquify_names(model: ir.Model) -> int:
     for v in all_values:
         fix(v, keep_empty=True)
     return renamed
+
+
+def annotate_devices(model: ir.Model, rng) -> int:
+    """IR >= 11: register device configurations and annotate random nodes of every graph (main graph,
+    nested graphs, function bodies and graphs nested in them) through the public API.  Returns the
+    number of annotations made."""
+    if (model.ir_version or 0) < 11:
+        return 0
+    cfgs = []
+    for i in range(rng.randint(1, 2)):
+        names = tuple(f"dev{i}_{j}" for j in range(rng.randint(2, 4)))
+        cfgs.append(model.add_device_configuration(f"cfg{i}", device_names=names if rng.random() < 0.7 else (),
+                                                   num_devices=len(names)))
+    graphs = [model.graph] + [f.graph for f in model.functions.values()]
+    nodes, seen = [], set()
+    while graphs:
+        g = graphs.pop()
+        if id(g) in seen:
+            continue
+        seen.add(id(g))
+        for n in g:
+            nodes.append(n)
+            for a in n.attributes.values():
+                if isinstance(a, ir.Attr) and not a.is_ref():
+                    if a.type == ir.AttributeType.GRAPH:
+                        graphs.append(a.value)
+                    elif a.type == ir.AttributeType.GRAPHS:
+                        graphs.extend(a.value)
+    made = 0
+    for n in nodes:
+        if rng.random() > 0.4:
+            continue
+        cfg = rng.choice(cfgs)
+        cands = [v for v in list(n.inputs) + list(n.outputs) if v is not None and v.name]
+        try:
+            if cands and rng.random() < 0.8:
+                v = rng.choice(cands)
+                rank = len(v.shape) if v.shape is not None else None
+                axis = rng.randrange(rank) if rank else 0
+                if rank == 0:
+                    continue
+                n.shard(v, configuration=cfg, axis=axis, num_shards=rng.choice([1, 2]),
+                        device_indices=[0, 1][: rng.randint(0, 2)],
+                        pipeline_stage=rng.choice([None, 0, 1]))
+            else:
+                n.set_pipeline_stage(cfg, rng.randint(0, 3))
+            made += 1
+        except ValueError:
+            pass
+    return made
